@@ -476,7 +476,7 @@ def finish(res, lean, rule, level='proof', checker_cmd=None, extra_cov=None):
     return 1 if violations else 0
 
 
-def kdiff(res, lean, impl_bin, lines, oracle=None, classify=None, unspecified=None, tag='', canon=None):
+def kdiff(res, lean, impl_bin, lines, oracle=None, classify=None, unspecified=None, tag='', canon=None, retry=0):
     """Run lines through impl and model drivers, compare, apply the direct oracle to every impl output.
     oracle(line, impl_out) -> None | str(detail) ; classify(line, impl_out) -> hashable non-triviality class or None."""
     impl_out = run_parallel(impl_bin, lines)
@@ -497,6 +497,19 @@ def kdiff(res, lean, impl_bin, lines, oracle=None, classify=None, unspecified=No
             c = classify(line, io)
             if c is not None:
                 res.nontrivial.add(c)
+        mo_pre = (model_out[idx] if idx < len(model_out) else 'MISSING') if model_out is not None else None
+        def bad(o):
+            if oracle and oracle(line, o): return True
+            if mo_pre is not None and not mo_pre.startswith('unspecified') and not (unspecified and unspecified(line, mo_pre)) and mo_pre != (canon(o) if canon else o): return True
+            return False
+        if retry and bad(io):
+            # wall-clock scenarios (live sockets, timers): a failure must reproduce when the case is run again on its own,
+            # otherwise it is attributed to scheduling noise and counted, not reported
+            for _ in range(retry):
+                again = run_lines(impl_bin, [line])
+                o2 = again[0] if again else 'MISSING'
+                if not bad(o2):
+                    res.count(tag + 'flaky-retried'); io = o2; break
         if oracle:
             d = oracle(line, io)
             if d:
@@ -528,7 +541,7 @@ def corpus_lines(prop):
 
 
 def standard_run(prop, tier, modules, theorems, gen, oracle, classify, rule, assumptions,
-                 driver=('drv_main', None), unspecified=None, extra=None, extra_cov=None, canon=None):
+                 driver=('drv_main', None), unspecified=None, extra=None, extra_cov=None, canon=None, retry=0):
     from vlib import drivers
     res = Result(prop, tier)
     rnd = random.Random(seed() * 7919 + int(prop[1:]))
@@ -541,13 +554,13 @@ def standard_run(prop, tier, modules, theorems, gen, oracle, classify, rule, ass
         res.failures.append({'kind': 'kdiff', 'detail': 'cannot build implementation driver: ' + err})
         return finish(res, lean, 'build failed')
     lines = corpus_lines(prop) + gen(tier, rnd)
-    kdiff(res, lean, drv, lines, oracle=oracle, classify=classify, unspecified=unspecified, canon=canon)
+    kdiff(res, lean, drv, lines, oracle=oracle, classify=classify, unspecified=unspecified, canon=canon, retry=retry)
     if extra:
         extra(res, lean, drv, tier, rnd)
     if res.failures and tier != 'thorough' and not [f for f in res.failures if f['kind'] == 'oracle']:
         # a tie broke but no failing input yet: failing-input search at thorough size, direct oracle only
         more = gen('thorough', random.Random(seed() + 1000003))
-        kdiff(res, None, drv, more, oracle=oracle, classify=classify, tag='search:')
+        kdiff(res, None, drv, more, oracle=oracle, classify=classify, tag='search:', retry=retry)
     res.assumptions = assumptions
     return finish(res, lean, rule, extra_cov=extra_cov)
 
